@@ -196,6 +196,8 @@ def rich_prog(
             spec["prio"] = draw(st.integers(-2, 3))
             if draw(st.integers(0, 5)) == 0:
                 spec["seq"] = True
+        if draw(st.sampled_from([True, False, False, False])):
+            spec["qual"] = f"mk.<locals>.{fn}"  # a function defined inside another function
         spec.update(extra)
         fns[fn] = spec
         return fn
